@@ -33,6 +33,13 @@ def E(t):
 
 
 def run(ctx):
+  ms_ = ctx.func('audio_io:make_stereo')
+  rz_ = [c for c in U.calls_in(ms_.node) if (dotted(c.func) or '').endswith('.resize') or (isinstance(c.func, ast.Attribute) and c.func.attr in ('resize', 'tile'))]
+  if rz_:
+    ctx.ob('STEREO/zero-padding', ms_, rz_[0], False, '%s brings a channel to the common length by repeating its samples (np.resize / np.tile fill with cyclic copies): the shorter channel must be '
+           'padded with zeros, not continued with its own beginning' % norm_text(rz_[0])[:60], construct='the shorter channel is padded with zeros', definite=True)
+  else:
+    ctx.ob('STEREO/zero-padding', ms_, ms_.node, True, 'no cyclic fill (np.resize / np.tile) in make_stereo', construct='the shorter channel is padded with zeros')
   i2f = ctx.func('audio_io:int16_samples_to_float32')
   f2i = ctx.func('audio_io:float_samples_to_int16')
   # location-independent: int16 -> float must *divide* by the scale.  IEEE division is correctly rounded; multiplying by a
